@@ -53,6 +53,8 @@ def run_symbolic(h, case, float_mode=None, check_ms=None, max_paths=None, stop_o
         subst[k] = v
     for k, v in (h.stubs or {}).items():
         subst[k] = v
+        if hasattr(k, "__func__"):  # a classmethod named through its class: the stub takes cls first, as natively
+            subst[k.__func__] = v
     it = Interp(ex, subst=subst)
     errors = []
 
